@@ -17,6 +17,14 @@ theorem C15_facts :
     Facts.defaultPlotSizeBody = "return uint64(bl * (1 << uint(bl-2)))" ∧
     minSize = 100663296 ∧ (minUsableSize : Int) = minSize := by decide
 
+/-- the comparisons the model transcribes stand in the source as the model has them (texts listed in the facts'
+doc comments: `currentSize > targetSize`, the "target satisfied" test against `PlotSize(MinValidDefaultBitLength)`,
+`targetSize-currentSize < PlotSize(bl)` in both creation loops, `uint64(requiredBytes) >= info.Free`, the
+`usableBitLength()[0]` minimum and the `int(targetSize)` conversion, `space.rootDir != path`) -/
+theorem C15_condition_facts :
+    Facts.condFillBySize = true ∧ Facts.condFillByPath = true ∧ Facts.condGenBySize = true ∧
+    Facts.condGenByPath = true ∧ Facts.condCheckDisk = true ∧ Facts.condConfigureBySize = true := by decide
+
 /-! ### configuration by total size -/
 
 /-- what a successful `ConfigureBySize` did -/
